@@ -20,11 +20,11 @@ import (
 //
 //	http://www.llvm.org/docs/LangRef.html#identifiers
 func GlobalName(name string) string {
-	// Positive numeric global names are quoted to distinguish global names from
-	// global IDs; e.g.
+	// Numeric global names (of any length, also beyond the range of uint64) are
+	// quoted to distinguish global names from global IDs; e.g.
 	//
 	//    @"2"
-	if _, err := strconv.ParseUint(name, 10, 64); err == nil {
+	if allDigits(name) {
 		return `@"` + name + `"`
 	}
 	return "@" + EscapeIdent(name)
@@ -59,11 +59,11 @@ func GlobalID(id int64) string {
 //
 //	http://www.llvm.org/docs/LangRef.html#identifiers
 func LocalName(name string) string {
-	// Positive numeric local names are quoted to distinguish local names from
-	// local IDs; e.g.
+	// Numeric local names (of any length, also beyond the range of uint64) are
+	// quoted to distinguish local names from local IDs; e.g.
 	//
 	//    %"2"
-	if _, err := strconv.ParseUint(name, 10, 64); err == nil {
+	if allDigits(name) {
 		return `%"` + name + `"`
 	}
 	return "%" + EscapeIdent(name)
@@ -98,11 +98,11 @@ func LocalID(id int64) string {
 //
 //	http://www.llvm.org/docs/LangRef.html#identifiers
 func LabelName(name string) string {
-	// Positive numeric label names are quoted to distinguish label names from
-	// label IDs; e.g.
+	// Numeric label names (of any length, also beyond the range of uint64) are
+	// quoted to distinguish label names from label IDs; e.g.
 	//
 	//    "2":
-	if _, err := strconv.ParseUint(name, 10, 64); err == nil {
+	if allDigits(name) {
 		return `"` + name + `":`
 	}
 	return EscapeIdent(name) + ":"
